@@ -596,3 +596,33 @@ Proof.
   - vm_compute. repeat (constructor; [cbn; intuition discriminate|]). constructor.
   - vm_compute. repeat (constructor; [cbn; intuition discriminate|]). constructor.
 Qed.
+
+(* the documented format of a type is its name: "Rgb565" = red 5, green 6, blue 5 bits, red first;
+   "Bgr565" blue first; "Gray4" = 4 bits; RGB types use the smallest whole number of bytes *)
+Definition documented_name (t : crow) : list Z :=
+  match c_kind t with
+  | KRgb ORgb r g b => [82; 103; 98; 48 + r; 48 + g; 48 + b]
+  | KRgb OBgr r g b => [66; 103; 114; 48 + r; 48 + g; 48 + b]
+  | KGray => [71; 114; 97; 121; 48 + bpp t]
+  | KBinary => [66; 105; 110; 97; 114; 121; 67; 111; 108; 111; 114]
+  end.
+Definition name_ok (t : crow) : bool :=
+  list_eqb (c_name t) (documented_name t) &&
+  (if is_rgb t then bpp t =? 8 * ((used_bits t + 7) / 8) else true).
+
+Lemma list_eqb_eq a : forall b, list_eqb a b = true -> a = b.
+Proof.
+  induction a as [|x a IH]; intros [|y b] H; try discriminate; auto.
+  cbn in H. apply andb_prop in H. destruct H as [H1 H2]. apply Z.eqb_eq in H1. f_equal; auto.
+Qed.
+
+Lemma table_names : forallb name_ok color_table = true.
+Proof. vm_compute. reflexivity. Qed.
+
+Lemma c12_names_document_layout : forall t, In t color_table ->
+  c_name t = documented_name t /\ (is_rgb t = true -> bpp t = 8 * ((used_bits t + 7) / 8)).
+Proof.
+  intros t Ht. pose proof (proj1 (forallb_forall _ color_table) table_names t Ht) as H.
+  unfold name_ok in H. apply andb_prop in H. destruct H as [H1 H2]. split; [apply list_eqb_eq, H1|].
+  intros Hr. rewrite Hr in H2. lia.
+Qed.
